@@ -101,6 +101,9 @@ impl fmt::Display for MolecularShape2 {
 
 impl MolecularShape2 {
     fn overlap_area(r: f64, d: f64) -> f64 {
+        // Where one circle touches the other from the inside, rounding can put the chord a hair
+        // beyond the radius, and both acos and sqrt are then not a number.
+        let d = f64::max(f64::min(d, r), -r);
         r.powi(2) * f64::acos(d / r) - d * f64::sqrt(r.powi(2) - d.powi(2))
     }
 
